@@ -121,12 +121,18 @@ func (rt *runtime) cmplEvaluateNodeArrayLiteral(node *nodeArrayLiteral) Value {
 
 func (rt *runtime) cmplEvaluateNodeAssignExpression(node *nodeAssignExpression) Value {
 	left := rt.cmplEvaluateNodeExpression(node.left)
+	leftValue := left
+	if node.operator != token.ASSIGN {
+		// Compound assignment reads the left operand before the
+		// right operand is evaluated (ES5 11.13.2).
+		leftValue = left.resolve()
+	}
 	right := rt.cmplEvaluateNodeExpression(node.right)
 	rightValue := right.resolve()
 
 	result := rightValue
 	if node.operator != token.ASSIGN {
-		result = rt.calculateBinaryExpression(node.operator, left, rightValue)
+		result = rt.calculateBinaryExpression(node.operator, leftValue, rightValue)
 	}
 
 	rt.putValue(left.reference(), result)
